@@ -1623,6 +1623,8 @@ package scipipe
 //@   atgo (*Task).Execute the-task-just-received[C04]: $arg0 == t && taskOK(t) && t.Process == p
 //@   atgo (*Task).Execute fifos-ready-before-start[C17]: forall o string :: o in t.OutIPs && t.OutIPs[o].doStream ==> $visited1[o]
 //@   atcall (*FileIP).CreateFifo refuse-existing-fifo[C03,C17]: !statOK(fsEpoch, oip.path + ".fifo")
+// The named pipe exists before the streaming IP is announced downstream (the consumer may open it at once).
+//@   atcall (*OutPort).Send fifo-made-before-the-streaming-ip-is-announced[C17]: ptr(FileIP, $arg1).doStream ==> effShell["mkfifo " + ptr(FileIP, $arg1).path + ".fifo"] || (exists e int :: statOK(e, ptr(FileIP, $arg1).path + ".fifo"))
 //@   atcall (*BaseProcess).CloseOutPorts closes-only-when-all-done[C05]: tasks == nil && len(startedTasks) == 0
 //@   loop 0 invariant wf: wfProcess(p) && wfRunPorts(p) && curTasks[p] != nil && taskChanOwner(curTasks[p]) == p
 //@   loop 0 invariant chan: tasks == nil || tasks == curTasks[p]
